@@ -1,4 +1,5 @@
 import GqlProofs.ValSpec.Spreads
+import GqlProofs.ValSpec.LeafFrag
 import GqlModel.Validate.Spec.Links
 /-
   C09 — validated documents are completely and correctly linked.
@@ -15,6 +16,13 @@ import GqlModel.Validate.Spec.Links
                                   its type condition, directive → directive definition of that name
     C09_spreads_linked            every spread written in the document has been linked (has an event)
     C09_fragment_definitions_linked   every fragment definition has been linked
+
+    C09_field_links_correct       (through `walk_parent_type`, for well-parented documents — every
+                                  document that validates is one) every field event carries the
+                                  declarative parent type of its node and the definition of the
+                                  field on that type, and every field node has such an event
+    C09_directive_links_correct   every directive written in the document is linked to the definition
+                                  of its name and to the location it is written at
 
   NOT finished (kept as the goal):
     C09_links_complete : Closed s → validate defaultRules s d = .ok [] →
@@ -63,6 +71,29 @@ theorem C09_fragment_definitions_linked (s : Schema) (d : QueryDoc) (evs : List 
   have := C09_links_correct_partial s d evs h e he
   rw [hp] at this
   exact ⟨e, he, by rw [hp]; exact congrArg _ this⟩
+
+/-- fields: `ObjectDefinition` is the type the field is selected on, `Definition` the field's
+    definition on it — soundness (every field event) and completeness (every field node) -/
+theorem C09_field_links_correct (s : Schema) (d : QueryDoc) (evs : List Event) (h : walkDoc s.view d = some evs)
+    (hwp : Spec.wellParented s d = true) :
+    (∀ e ∈ evs, ∀ f par dfn, e.p = .field f par dfn →
+      (⟨par, .field f.alias f.name f.args f.dirs f.sel f.pos⟩ : Spec.TSel) ∈ Spec.docSels s d ∧
+        dfn = par.bind (Spec.fieldDefOn · f.name)) ∧
+    (∀ t ∈ Spec.docSels s d, ∀ al nm args dirs sub p, t.sel = .field al nm args dirs sub p →
+      ∃ e ∈ evs, e.p = .field ⟨al, nm, args, dirs, sub, p⟩ t.parent (t.parent.bind (Spec.fieldDefOn · nm))) :=
+  ⟨fun e he f par dfn hp => walk_parent_type s d evs h hwp e he f par dfn hp,
+   fun t ht al nm args dirs sub p hs => walk_parent_type_complete s d evs h hwp t ht al nm args dirs sub p hs⟩
+
+/-- directives: every directive written at a location of the document has an event that carries
+    the definition of its name and that location; and every directive event is such a directive -/
+theorem C09_directive_links_correct (s : Schema) (d : QueryDoc) (evs : List Event) (h : walkDoc s.view d = some evs)
+    (hk : ∀ op ∈ d.ops, op.op ∈ parserOpKinds) :
+    (∀ loc ds, (loc, ds) ∈ Spec.directiveSites s d → ∀ dir ∈ ds,
+      ∃ e ∈ evs, ∃ par, e.p = .directive dir (s.directive? dir.name) par loc) ∧
+    (∀ e ∈ evs, ∀ dir dfn par loc, e.p = .directive dir dfn par loc →
+      dfn = s.directive? dir.name ∧ ∃ ds, (loc, ds) ∈ Spec.directiveSites s d ∧ dir ∈ ds) :=
+  ⟨fun loc ds hs dir hd => directive_event_complete s d evs h hk loc ds hs dir hd,
+   fun e he dir dfn par loc hp => directive_event_sound s d evs h hk e he dir dfn par loc hp⟩
 
 /-- the walk always succeeds (C02), so the statements above are not vacuous -/
 example (s : Schema) (d : QueryDoc) : ∃ evs, walkDoc s.view d = some evs := walkDoc_isSome s.view d
